@@ -843,6 +843,85 @@ def probe_merge():
     ]
 
 
+BOUNDARY = ["", " ", "0", "None", "False", "a:b", "a/b"]
+
+
+def probe_strings():
+    """boundary strings in the string slots of the format -> [(slot, ok)]:
+    getstr:<v>      neuroml.hdf5.get_str_attribute_group hands back exactly the stored string (as str, numpy.str_, numpy.bytes_)
+    writer:<slot>   the empty string is written as the empty string
+    reader:<slot>   the parser hands the empty string to the handler
+    builder:<slot>  the handler stores the empty string in the object"""
+    from neuroml.hdf5 import get_str_attribute_group
+    from neuroml.hdf5.NeuroMLHdf5Parser import NeuroMLHdf5Parser
+    out = []
+    for v in BOUNDARY:
+        oks = []
+        for wrap in (lambda x: x, numpy.str_, lambda x: numpy.bytes_(x.encode())):
+            g = RGroup("g", {})
+            g._v_attrs._d["a"] = wrap(v)
+            try:
+                got = get_str_attribute_group(g, "a")
+                oks.append(isinstance(got, str) and got == v)
+            except Exception:  # noqa: BLE001
+                oks.append(False)
+        out.append(["getstr:" + repr(v), all(oks)])
+    # writer
+    n = neuroml
+    import tables
+    doc = n.NeuroMLDocument(id="D", notes="")
+    net = n.Network(id="N", notes="")
+    doc.networks.append(net)
+    pop = n.Population(id="P", component="C", size=1)
+    pop.properties.append(n.Property(tag="flag", value=""))
+    net.populations.append(pop)
+    mf = MFile()
+    orig = tables.open_file
+    tables.open_file = lambda *a, **k: mf
+    try:
+        from neuroml.writers import NeuroMLHdf5Writer
+        with contextlib.redirect_stdout(io.StringIO()):
+            NeuroMLHdf5Writer.write(doc, "/nonexistent/never-created.h5")
+    finally:
+        tables.open_file = orig
+    root = mf.root.children[0]
+    netg = root.children[0]
+    popg = netg.children[0]
+    out.append(["writer:document.notes", dict(root.attrs).get("notes", None) == ""])
+    out.append(["writer:network.notes", dict(netg.attrs).get("notes", None) == ""])
+    out.append(["writer:population.property.value", dict(popg.attrs).get("property:flag", None) == ""])
+    # reader
+    rec = Recorder()
+    p = NeuroMLHdf5Parser(rec)
+    p.nml_doc_extra_elements = None
+    rp = RGroup("population_GID", {"id": "GID", "component": "GCOMP", "size": numpy.int64(4), "property:flag": ""})
+    rn = RGroup("network", {"id": "NID", "notes": ""}, [rp])
+    rr = RGroup("neuroml", {"id": "DID", "notes": ""}, [rn])
+    with contextlib.redirect_stdout(io.StringIO()):
+        p.parse_group(rr)
+    c = dict((nm, a) for nm, a in rec.calls)
+    out.append(["reader:document.notes", c["handle_document_start"]["notes"] == ""])
+    out.append(["reader:network.notes", c["handle_network"]["notes"] == ""])
+    out.append(["reader:population.property.value", c["handle_population"]["properties"] == {"flag": ""}])
+    # builder
+    nb = fresh_builder()
+    nb.handle_document_start("XD", "")
+    nb.handle_network("XN", "")
+    nb.handle_population("XP", "XC", 1, properties={"flag": ""})
+    out.append(["builder:document.notes", nb.nml_doc.notes == ""])
+    out.append(["builder:network.notes", nb.network.notes == ""])
+    out.append(["builder:population.property.value", [(q.tag, q.value) for q in nb.populations["XP"].properties] == [("flag", "")]])
+    # optimized loader: the parser itself builds the objects
+    p2 = NeuroMLHdf5Parser(None, optimized=True)
+    p2.nml_doc_extra_elements = None
+    with contextlib.redirect_stdout(io.StringIO()):
+        p2.parse_group(rr)
+    d2 = p2.get_nml_doc()
+    out.append(["optimized:population.property.value",
+                [(q.tag, q.value) for q in d2.networks[0].populations[0].properties] == [("flag", "")]])
+    return out
+
+
 def probe_builder_strings():
     """handler string arguments -> object string fields (projection ids, populations, synapses, components)"""
     res = {}
@@ -1180,11 +1259,12 @@ def render(t):
     L.append("Definition builder_precision : list (string * string * string * bool) := %s.\n" %
              cl(["(%s, %s, %s, %s)" % (cs(k), cs(a), cs(v), cb(ok)) for k, a, v, ok in t["precision"]]))
     L.append("Definition merge_probe : list (string * bool) := %s.\n" % cl(["(%s, %s)" % (cs(k), cb(v)) for k, v in t["merge"]]))
+    L.append("Definition string_probe : list (string * bool) := %s.\n" % cl(["(%s, %s)" % (cs(k), cb(v)) for k, v in t["strings"]]))
     L.append("\nDefinition gen : h5gen := {| g_writer := writer_tables; g_reader := reader_tables; g_builder := builder_table;\n"
              "  g_sized_pop_w := sized_population_gattrs; g_sized_pop_r := sized_population_gattrs_r;\n"
              "  g_doc_w := document_gattrs_w; g_doc_r := document_gattrs_r; g_net_w := network_gattrs_w; g_net_r := network_gattrs_r;\n"
              "  g_prop_prefix := property_prefix_ok; g_none_notes := none_notes_read_as; g_absent_temp := absent_temperature_read_as;\n"
-             "  g_builder_strings := builder_strings; g_refusals := refusals; g_delay_units := delay_units;\n  g_select := select_probes; g_zero := zero_cells; g_precision := builder_precision; g_merge := merge_probe |}.")
+             "  g_builder_strings := builder_strings; g_refusals := refusals; g_delay_units := delay_units;\n  g_select := select_probes; g_zero := zero_cells; g_precision := builder_precision; g_merge := merge_probe; g_strings := string_probe |}.")
     return "\n".join(L) + "\n"
 
 
@@ -1208,6 +1288,7 @@ def main():
     t["zero"] = probe_zero(t["writer"])
     t["precision"] = probe_builder_precision()
     t["merge"] = probe_merge()
+    t["strings"] = probe_strings()
     print(json.dumps({"json": t, "coq": render(t)}))
 
 
